@@ -134,6 +134,9 @@ func VerifC03IP6() {
 	verifAssert(len(ip) == 40 && ip.IsValid() == nil, "ip6-valid")
 	verifAssert(ip.Src() == src && ip.Dst() == dst && ip.HopLimit() == hop && ip.Version() == 6 && ip.PayloadLen() == 0, "ip6-getters")
 	verifAssert(buf[0]>>4 == 6 && buf[7] == hop && verifAddr16(buf, 8) == src && verifAddr16(buf, 24) == dst, "ip6-ref")
+	// the buffer is a reused one (arbitrary old contents): the fields the caller cannot supply (traffic class, flow
+	// label) must be written too, so that the header decodes to the supplied values only
+	verifAssert(buf[0] == 0x60 && buf[1] == 0 && buf[2] == 0 && buf[3] == 0, "ip6-header-fully-written-on-reused-buffer")
 	payload, n := verifPayload(1460)
 	switch verifChoose(2) {
 	case 0:
